@@ -19,6 +19,7 @@ ROOT, CUR, PARENT, NORMAL = 1, 2, 3, 4
 class Comp:
     """std::path::Component: kind (I) and, for Normal, a name atom (I)."""
     __slots__ = ("kind", "atom")
+    immutable = True
 
     def __init__(self, kind, atom=None):
         self.kind = kind if isinstance(kind, I) else I(kind)
@@ -343,3 +344,320 @@ def component_enum_hook(ty, vn, vals):
         kind = ["Prefix", "RootDir", "CurDir", "ParentDir", "Normal"].index(vn)
         return Comp(kind)
     return None
+
+
+# ================================================================================================
+# Environment / string / path-term models for the XDG lookups (C18)
+#
+# Strings are abstract: a literal is identified by its text, an environment value by a symbolic Int.
+# Paths are terms over uninterpreted functions  pathof: S -> P  and  mash: P x S -> P , so the
+# solver decides equality of results "under every environment and every behaviour of mash".
+# ================================================================================================
+class PT:
+    """PathBuf / &Path as a term of sort P."""
+    __slots__ = ("term",)
+    immutable = True
+
+    def __init__(self, term):
+        self.term = term
+
+    def __repr__(self):
+        return "PT(%s)" % self.term
+
+
+class UninitBox:
+    """`Box::<[T; N]>::new_uninit()` as lowered by `vec![..]`: a cell that receives the array."""
+    deref_self = True
+
+    def __init__(self):
+        self.content = None
+
+    def get_field(self, n):
+        return self
+
+    def set_field(self, n, v):
+        if v is not self:
+            self.content = v
+
+
+class VecIterM(VecM):
+    pass
+
+
+class SplitM:
+    def __init__(self, segs):
+        self.segs = list(segs)
+
+
+class Env:
+    """Symbolic process environment + string table, shared by one job (declares solver symbols)."""
+
+    def __init__(self, solver, max_segs):
+        self.solver, self.max_segs = solver, max_segs
+        self.lits = {}
+        solver.declare_sort("P")
+        solver.declare_fun("pathof", ["Int"], "P")
+        solver.declare_fun("mash", ["P", "Int"], "P")
+        solver.declare_fun("fs_exists", ["P"], "Bool")
+        solver.declare_fun("parse_ok", ["Int"], "Bool")
+        solver.declare_fun("parse_val", ["Int"], "(_ BitVec 32)")
+        self.vars = set()
+
+    def lit(self, s):
+        if s not in self.lits:
+            self.lits[s] = -(len(self.lits) + 1)
+        return I(self.lits[s])
+
+    def str_term(self, v):
+        if isinstance(v, Str):
+            if v.s is not None:
+                return self.lit(v.s)
+            return v.sym
+        raise Unsupported("not a string: %r" % (v,))
+
+    def var_syms(self, name):
+        if name not in self.vars:
+            self.vars.add(name)
+            self.solver.declare("set_" + name, "Bool")
+            self.solver.declare("val_" + name, "Int")
+            self.solver.raw("(assert (>= val_%s 0))" % name)
+            self.solver.declare("nseg_" + name, "Int")
+            self.solver.raw("(assert (and (>= nseg_%s 1) (<= nseg_%s %d)))" % (name, name, self.max_segs))
+            for j in range(self.max_segs):
+                self.solver.declare("seg_%s_%d" % (name, j), "Int")
+                self.solver.raw("(assert (>= seg_%s_%d 0))" % (name, j))
+                self.solver.declare("segempty_%s_%d" % (name, j), "Bool")
+        return B("set_" + name), I("val_" + name)
+
+
+def make_env_models(env):
+    def m_var(ex, st, args, callee, ty):
+        name = args[0]
+        if not (isinstance(name, Str) and name.s is not None):
+            raise Unsupported("env::var of a non-constant name %r" % (name,))
+        is_set, val = env.var_syms(name.s)
+        if ex.decide(st, is_set):
+            return Adt("Result", 0, "Ok", [Str(sym=val)])
+        return Adt("Result", 1, "Err", [Adt("VarError", 0, "NotPresent", [])])
+
+    def m_pathbuf_from_str(ex, st, args, callee, ty):
+        s = _obj(ex, st, args[0])
+        return PT("(pathof %s)" % env.str_term(s).smt())
+
+    def m_mash(ex, st, args, callee, ty):
+        p = _obj(ex, st, args[0])
+        s = _obj(ex, st, args[1])
+        if not isinstance(p, PT):
+            raise Unsupported("mash on %r" % (p,))
+        return PT("(mash %s %s)" % (p.term, env.str_term(s).smt()))
+
+    def m_try_branch(ex, st, args, callee, ty):
+        r = args[0]
+        if not (isinstance(r, Adt) and r.ty == "Result"):
+            raise Unsupported("Try::branch on %r" % (r,))
+        if r.variant == 0:
+            return Adt("ControlFlow", 0, "Continue", [r.fields[0]])
+        return Adt("ControlFlow", 1, "Break", [Adt("Result", 1, "Err", [r.fields[0]])])
+
+    def m_from_residual(ex, st, args, callee, ty):
+        r = args[0]
+        return Adt("Result", 1, "Err", [Adt("RvError", None, "from", [r.fields[0]])])
+
+    def m_new_uninit(ex, st, args, callee, ty):
+        return UninitBox()
+
+    def m_into_vec(ex, st, args, callee, ty):
+        b = args[0]
+        if not isinstance(b, UninitBox) or b.content is None:
+            raise Unsupported("box_assume_init_into_vec on %r" % (b,))
+        return VecM(b.content.fields)
+
+    def m_str_as_ref(ex, st, args, callee, ty):
+        v = _obj(ex, st, args[0])
+        if isinstance(v, Str):
+            return v
+        raise Unsupported("AsRef<str> on %r" % (v,))
+
+    def m_split(ex, st, args, callee, ty):
+        s = _obj(ex, st, args[0])
+        sep = args[1]
+        if not (isinstance(sep, BV) and sep.concrete and sep.v == ord(":")):
+            raise Unsupported("str::split with separator %r" % (sep,))
+        if not (isinstance(s, Str) and s.sym is not None and not s.sym.concrete and s.sym.v.startswith("val_")):
+            raise Unsupported("str::split on %r" % (s,))
+        name = s.sym.v[4:]
+        n = 1
+        while n < env.max_segs and not ex.decide(st, i_eq(I("nseg_" + name), I(n))):
+            n += 1
+        segs = [Str(sym=I("seg_%s_%d" % (name, j))) for j in range(n)]
+        st.meta.setdefault("split", {})[name] = n
+        return SplitM(segs)
+
+    def m_split_next(ex, st, args, callee, ty):
+        it = _obj(ex, st, args[0])
+        if it.segs:
+            return opt_some(ex, it.segs.pop(0))
+        return opt_none(ex)
+
+    def m_str_is_empty(ex, st, args, callee, ty):
+        s = _obj(ex, st, args[0])
+        if isinstance(s, Str) and s.s is not None:
+            return B(len(s.s) == 0)
+        t = s.sym.v
+        if t.startswith("seg_"):
+            return B("segempty_" + t[4:])
+        raise Unsupported("str::is_empty on %r" % (s,))
+
+    def m_vec_new(ex, st, args, callee, ty):
+        return VecM()
+
+    def m_vec_insert(ex, st, args, callee, ty):
+        v = _obj(ex, st, args[0])
+        idx = args[1]
+        if not (isinstance(idx, BV) and idx.concrete):
+            raise Unsupported("Vec::insert at symbolic index")
+        if idx.v > len(v.items):
+            raise Panic("Vec::insert index out of bounds")
+        v.items.insert(idx.v, args[2])
+        return UNIT
+
+    def m_vec_into_iter(ex, st, args, callee, ty):
+        v = _obj(ex, st, args[0])
+        return VecIterM(v.items)
+
+    def m_vec_iter_next(ex, st, args, callee, ty):
+        it = _obj(ex, st, args[0])
+        if it.items:
+            return opt_some(ex, it.items.pop(0))
+        return opt_none(ex)
+
+    def m_exists(ex, st, args, callee, ty):
+        p = _obj(ex, st, args[-1])
+        if not isinstance(p, PT):
+            raise Unsupported("exists on %r" % (p,))
+        st.meta.setdefault("exists_calls", []).append(p.term)
+        return B("(fs_exists %s)" % p.term)
+
+    def m_string_deref(ex, st, args, callee, ty):
+        return _last_ref(ex, st, args[0]) if isinstance(args[0], (Ref, BoxRef)) else BoxRef(args[0])
+
+    def m_parse_u32(ex, st, args, callee, ty):
+        s = _obj(ex, st, args[0])
+        t = env.str_term(s).smt()
+        if ex.decide(st, B("(parse_ok %s)" % t)):
+            return Adt("Result", 0, "Ok", [BV(32, False, "(parse_val %s)" % t)])
+        return Adt("Result", 1, "Err", [Adt("ParseIntError", None, None, [])])
+
+    return [
+        (rx(r"^(std::env::)?var::<&str>$"), m_var),
+        (rx(r"^<PathBuf as From<(String|&str)>>::from$"), m_pathbuf_from_str),
+        (rx(r"^<Path as sys::fs::path::PathExt>::mash::<&str>$"), m_mash),
+        (rx(r"^<Result<.*> as Try>::branch$"), m_try_branch),
+        (rx(r"^<Result<.*> as FromResidual<Result<Infallible, .*>>>::from_residual$"), m_from_residual),
+        (rx(r"^Box::<\[PathBuf; \d+\]>::new_uninit$"), m_new_uninit),
+        (rx(r"^std::boxed::box_assume_init_into_vec_unsafe::<PathBuf, \d+>$"), m_into_vec),
+        (rx(r"^<.* as AsRef<str>>::as_ref$"), m_str_as_ref),
+        (rx(r"^core::str::<impl str>::split::<char>$"), m_split),
+        (rx(r"^<std::str::Split<'_, char> as IntoIterator>::into_iter$"), m_identity),
+        (rx(r"^<std::str::Split<'_, char> as Iterator>::next$"), m_split_next),
+        (rx(r"^core::str::<impl str>::is_empty$"), m_str_is_empty),
+        (rx(r"^Vec::<PathBuf>::new$"), m_vec_new),
+        (rx(r"^Vec::<PathBuf>::push$"), m_vec_push),
+        (rx(r"^Vec::<PathBuf>::is_empty$"), m_vec_is_empty),
+        (rx(r"^Vec::<PathBuf>::insert$"), m_vec_insert),
+        (rx(r"^<Vec<PathBuf> as IntoIterator>::into_iter$"), m_vec_into_iter),
+        (rx(r"^<std::vec::IntoIter<PathBuf> as Iterator>::next$"), m_vec_iter_next),
+        (rx(r"^<PathBuf as Deref>::deref$"), m_deref),
+        (rx(r"^<String as Deref>::deref$"), m_string_deref),
+        (rx(r"^core::str::<impl str>::parse::<u32>$"), m_parse_u32),
+        (rx(r"^<memfs::vfs::Memfs as sys::fs::vfs::VirtualFileSystem>::exists::<PathBuf>$"), m_exists),
+        (rx(r"^stdfs::Stdfs::exists::<PathBuf>$"), m_exists),
+    ]
+
+
+# ================================================================================================
+# chmod::mode models (C11): the symbolic string is a char array of concrete length
+# ================================================================================================
+class CharStr:
+    """&str given as its chars (each a BV32, possibly symbolic)."""
+    immutable = True
+
+    def __init__(self, chars):
+        self.chars = list(chars)
+
+
+class EntryM:
+    """A VfsEntry seen through its accessors: symbolic flags and mode."""
+    immutable = True
+
+    def __init__(self, is_dir, is_file, is_symlink, mode):
+        self.is_dir, self.is_file, self.is_symlink, self.mode = is_dir, is_file, is_symlink, mode
+
+
+def m_try_branch_generic(ex, st, args, callee, ty):
+    r = args[0]
+    if not (isinstance(r, Adt) and r.ty == "Result"):
+        raise Unsupported("Try::branch on %r" % (r,))
+    if r.variant == 0:
+        return Adt("ControlFlow", 0, "Continue", [r.fields[0]])
+    return Adt("ControlFlow", 1, "Break", [Adt("Result", 1, "Err", [r.fields[0]])])
+
+
+def m_from_residual_generic(ex, st, args, callee, ty):
+    r = args[0]
+    return Adt("Result", 1, "Err", [r.fields[0]])
+
+
+def make_chmod_models():
+    def m_is_empty(ex, st, args, callee, ty):
+        s = _obj(ex, st, args[0])
+        return B(len(s.chars) == 0)
+
+    def m_chars(ex, st, args, callee, ty):
+        return VecM(_obj(ex, st, args[0]).chars)
+
+    def m_rev(ex, st, args, callee, ty):
+        return VecM(list(reversed(args[0].items)))
+
+    def m_collect(ex, st, args, callee, ty):
+        return VecM(args[0].items)
+
+    def m_unwrap(ex, st, args, callee, ty):
+        o = args[0]
+        if o.variant == 0:
+            raise Panic("called `Option::unwrap()` on a `None` value")
+        return o.fields[0]
+
+    def m_to_string(ex, st, args, callee, ty):
+        return _obj(ex, st, args[0])
+
+    def m_into(ex, st, args, callee, ty):
+        return Adt("RvError", None, "Vfs", [args[0]])
+
+    def m_entry(attr):
+        def f(ex, st, args, callee, ty):
+            return getattr(_obj(ex, st, args[0]), attr)
+        return f
+
+    def m_state_eq(ex, st, args, callee, ty):
+        a, b = _obj(ex, st, args[0]), _obj(ex, st, args[1])
+        return B(a.variant == b.variant)
+
+    return [
+        (rx(r"^core::str::<impl str>::is_empty$"), m_is_empty),
+        (rx(r"^core::str::<impl str>::chars$"), m_chars),
+        (rx(r"^<Chars<'_> as Iterator>::rev$"), m_rev),
+        (rx(r"^<Rev<Chars<'_>> as Iterator>::collect::<Vec<char>>$"), m_collect),
+        (rx(r"^Vec::<char>::pop$"), m_vec_pop),
+        (rx(r"^Vec::<char>::is_empty$"), m_vec_is_empty),
+        (rx(r"^Option::<char>::unwrap$"), m_unwrap),
+        (rx(r"^<str as ToString>::to_string$"), m_to_string),
+        (rx(r"^<errors::vfs::VfsError as Into<RvError>>::into$"), m_into),
+        (rx(r"^<sys::fs::entry::VfsEntry as sys::fs::entry::Entry>::mode$"), m_entry("mode")),
+        (rx(r"^<sys::fs::entry::VfsEntry as sys::fs::entry::Entry>::is_symlink$"), m_entry("is_symlink")),
+        (rx(r"^<sys::fs::entry::VfsEntry as sys::fs::entry::Entry>::is_dir$"), m_entry("is_dir")),
+        (rx(r"^<sys::fs::entry::VfsEntry as sys::fs::entry::Entry>::is_file$"), m_entry("is_file")),
+        (rx(r"^<State as PartialEq>::eq$"), m_state_eq),
+        (rx(r"^<Result<.*> as Try>::branch$"), m_try_branch_generic),
+        (rx(r"^<Result<.*> as FromResidual<Result<Infallible, .*>>>::from_residual$"), m_from_residual_generic),
+    ]
